@@ -1,6 +1,32 @@
-//! C10 — probe stub (temporary)
+//! C10 — JaCoCo XML report fidelity.
+//! (1) property oracle: `parse_jacoco_xml_report(render tree) = sem tree` on generated well-formed
+//!     report trees (all serialisation choices drawn from the rng), with shrinking;
+//! (2) tie of the real parser to the Lean event-level model `Jacoco.parse` (driver gm_c10) on the
+//!     well-formed stream and on a malformed stream (tree-level mutations, stray end tags, cuts);
+//!     the tree -> event-list serialiser is itself checked against quick-xml's tokenizer;
+//! (3) helper ties: unescape, parse::<u32/u64>, is_jacoco through the real producer;
+//! (4) two named findings (EOF inside a nested loop never returns; cb/mb are allocation sizes),
+//!     both observed in a child process with a wall-clock limit.
+mod gen;
+mod mal;
+mod ties;
+mod tree;
+
 use corrlib::*;
+use gen::*;
+use mal::*;
+use serde_json::{json, Value};
 use std::io::{BufReader, Cursor};
+use std::path::{Path, PathBuf};
+use std::process::{Child, Command, Stdio};
+use std::sync::Mutex;
+use std::time::{Duration, Instant};
+use tree::*;
+
+const F_HANG: &str = "C10-eof-in-nested-loop-hang";
+const F_ALLOC: &str = "C10-branch-vector-alloc";
+/// an in-process parse that takes longer than this is reported by the watchdog
+const INPROC_LIMIT_S: u64 = 10;
 
 pub fn show_outcome(r: &Result<Result<Vec<(String, grcov::CovResult)>, grcov::ParserError>, String>) -> String {
     match r {
@@ -18,20 +44,573 @@ pub fn show_outcome(r: &Result<Result<Vec<(String, grcov::CovResult)>, grcov::Pa
     }
 }
 
-pub fn run_impl(bytes: &[u8]) -> String {
-    let b = bytes.to_vec();
-    show_outcome(&guarded(move || grcov::parse_jacoco_xml_report(BufReader::new(Cursor::new(b)))))
+// ---- watchdog: the real parser has loops without an Eof arm; never let it stall the harness -----
+struct Watch {
+    current: Option<(Instant, Vec<u8>)>,
+    tier: String,
+    seed: u64,
+    workdir: PathBuf,
+    done: u64,
+}
+static WATCH: Mutex<Option<Watch>> = Mutex::new(None);
+
+fn start_watchdog(rep: &Report) {
+    *WATCH.lock().unwrap() =
+        Some(Watch { current: None, tier: rep.tier.clone(), seed: rep.seed, workdir: rep.workdir.clone(), done: 0 });
+    std::thread::spawn(|| loop {
+        std::thread::sleep(Duration::from_millis(250));
+        let g = WATCH.lock().unwrap();
+        if let Some(w) = g.as_ref() {
+            if let Some((t, xml)) = &w.current {
+                if t.elapsed() > Duration::from_secs(INPROC_LIMIT_S) {
+                    let res = json!({
+                        "property": "C10", "tier": w.tier, "seed": w.seed, "evaluations": w.done + 1,
+                        "distinct_nontrivial": 0,
+                        "rule": "aborted by the harness watchdog: an in-process call of parse_jacoco_xml_report did not return",
+                        "samples": [], "distribution": {"watchdog.inprocess_parse_stalled": 1},
+                        "disagreements_checked": 0,
+                        "notes": ["the run was cut short by the watchdog; only the stalling input is reported"],
+                        "findings_seen": [],
+                        "failures": [{
+                            "kind": "oracle", "finding": null,
+                            "what": format!("parse_jacoco_xml_report did not return within {} s on an input whose elements are all closed (or which ends in a tokenizer error)", INPROC_LIMIT_S),
+                            "case": {"op": "jacoco", "stream": "watchdog", "child": true, "xml_hex": fhex(xml),
+                                     "xml": String::from_utf8_lossy(xml), "spec": "returns"}
+                        }],
+                    });
+                    let p = w.workdir.join("result.json");
+                    std::fs::write(&p, serde_json::to_string_pretty(&res).unwrap()).unwrap();
+                    println!("result {}", p.display());
+                    std::process::exit(0);
+                }
+            }
+        }
+    });
 }
 
-pub fn run(_rep: &mut Report) {}
-pub fn replay(_rep: &mut Report, _case: &serde_json::Value) {}
+pub fn run_impl(bytes: &[u8]) -> String {
+    if let Some(w) = WATCH.lock().unwrap().as_mut() {
+        w.current = Some((Instant::now(), bytes.to_vec()));
+    }
+    let b = bytes.to_vec();
+    let r = show_outcome(&guarded(move || grcov::parse_jacoco_xml_report(BufReader::new(Cursor::new(b)))));
+    if let Some(w) = WATCH.lock().unwrap().as_mut() {
+        w.current = None;
+        w.done += 1;
+    }
+    r
+}
+
+// ---- child processes -----------------------------------------------------------------------------------
+struct Pending {
+    child: Child,
+    started: Instant,
+    timeout: Duration,
+    out_path: PathBuf,
+}
+
+fn spawn_child(mode: &str, bytes: &[u8], workdir: &Path, tag: &str, timeout_ms: u64) -> Pending {
+    let in_path = workdir.join(format!("{}.xml", tag));
+    let out_path = workdir.join(format!("{}.out", tag));
+    std::fs::write(&in_path, bytes).unwrap();
+    let out = std::fs::File::create(&out_path).unwrap();
+    let child = Command::new(std::env::current_exe().unwrap())
+        .arg(mode)
+        .arg(&in_path)
+        .arg("--limit-ms")
+        .arg((timeout_ms + 3000).to_string())
+        .stdin(Stdio::null())
+        .stdout(Stdio::from(out))
+        .stderr(Stdio::null())
+        .spawn()
+        .expect("cannot re-exec the harness binary");
+    Pending { child, started: Instant::now(), timeout: Duration::from_millis(timeout_ms), out_path }
+}
+
+/// the child's answer line; "diverge" when it had to be killed; "crash <status>" otherwise
+fn harvest(mut p: Pending) -> String {
+    loop {
+        match p.child.try_wait() {
+            Ok(Some(st)) => {
+                let text = std::fs::read_to_string(&p.out_path).unwrap_or_default();
+                let line = text.lines().next().unwrap_or("").to_string();
+                if st.success() && !line.is_empty() {
+                    return line;
+                }
+                return format!("crash {:?}", st.code());
+            }
+            Ok(None) => {
+                if p.started.elapsed() > p.timeout {
+                    let _ = p.child.kill();
+                    let _ = p.child.wait();
+                    return "diverge".to_string();
+                }
+                std::thread::sleep(Duration::from_millis(20));
+            }
+            Err(_) => return "crash wait".to_string(),
+        }
+    }
+}
+
+fn child_main(args: &[String]) {
+    // self-destruct: a child never outlives its limit even if the parent is gone
+    let mut limit = 10_000u64;
+    if args.len() >= 5 && args[3] == "--limit-ms" {
+        limit = args[4].parse().unwrap_or(limit);
+    }
+    std::thread::spawn(move || {
+        std::thread::sleep(Duration::from_millis(limit));
+        std::process::exit(3);
+    });
+    install_panic_hook();
+    let bytes = std::fs::read(&args[2]).unwrap();
+    if args[1] == "--child-parse" {
+        println!("{}", run_impl(&bytes));
+    } else {
+        // --child-alloc: only the size of what was built
+        let b = bytes.clone();
+        match guarded(move || grcov::parse_jacoco_xml_report(BufReader::new(Cursor::new(b)))) {
+            Ok(Ok(rs)) => {
+                let n: usize = rs.iter().map(|(_, c)| c.branches.values().map(|v| v.len()).sum::<usize>()).sum();
+                println!("entries {}", n);
+            }
+            Ok(Err(_)) => println!("err"),
+            Err(_) => println!("panic"),
+        }
+    }
+}
+
+// ---- cases ---------------------------------------------------------------------------------------------
+struct Case {
+    stream: String,
+    xml: Vec<u8>,
+    request: String,
+    /// expected outcome by the property (well-formed cases)
+    spec: Option<String>,
+    /// observation of the real parser; filled late for child cases
+    imp: String,
+    child: bool,
+    timeout_ms: u64,
+}
+
+fn case_json(c: &Case, model: &str) -> Value {
+    json!({"op": "jacoco", "stream": c.stream, "child": c.child, "timeout_ms": c.timeout_ms,
+           "xml_hex": fhex(&c.xml), "xml": String::from_utf8_lossy(&c.xml), "request": c.request,
+           "spec": c.spec, "impl": c.imp, "model": model})
+}
+
+fn spec_of(doc: &Doc) -> String {
+    format!("ok {}", show_results(&sem(doc))).trim_end().to_string()
+}
+fn render(doc: &Doc) -> Vec<u8> {
+    xml_of(&tokens(&lower(doc)))
+}
+fn oracle_fails(doc: &Doc) -> bool {
+    run_impl(&render(doc)) != spec_of(doc)
+}
+
+/// every element closed?
+fn balanced(toks: &[Tok]) -> bool {
+    toks.iter().map(|t| t.open.as_ref().map(|o| o.1 as i64).unwrap_or(0)).sum::<i64>() == 0
+}
+
+fn self_check(rep: &mut Report, stream: &str, xml: &[u8], events: &[String]) {
+    let qx = qx_events(xml);
+    if qx.as_deref() != Some(events) {
+        rep.count("harness.serialiser_mismatch");
+        rep.fail(
+            "disagreement",
+            None,
+            "HARNESS: the tree->event serialiser and quick-xml's tokenizer disagree on this text (the model would be fed the wrong events)".into(),
+            json!({"op": "events", "stream": stream, "xml_hex": fhex(xml), "xml": String::from_utf8_lossy(xml),
+                   "harness_events": events, "quick_xml_events": qx}),
+        );
+    }
+}
+
+fn check_oracle(rep: &mut Report, doc: &Doc, shrunk: &mut u32) -> bool {
+    let xml = render(doc);
+    let got = run_impl(&xml);
+    let want = spec_of(doc);
+    if got == want {
+        return true;
+    }
+    let min = if *shrunk < 5 {
+        *shrunk += 1;
+        shrink_doc(doc, &mut |d| oracle_fails(d))
+    } else {
+        doc.clone()
+    };
+    let toks = tokens(&lower(&min));
+    let xml = xml_of(&toks);
+    let c = Case {
+        stream: "wellformed".into(),
+        request: request_of(&events_of(&toks)),
+        spec: Some(spec_of(&min)),
+        imp: run_impl(&xml),
+        xml,
+        child: false,
+        timeout_ms: 0,
+    };
+    rep.fail(
+        "oracle",
+        None,
+        "parse_jacoco_xml_report(XML of the report tree) differs from what the report says (minimised)".into(),
+        case_json(&c, ""),
+    );
+    false
+}
+
+pub fn run(rep: &mut Report) {
+    rep.rule = "JaCoCo report trees (1-3 packages, 0-4 classes incl. nested / several per file / fallback file name, 0-4 \
+                methods with entity-worthy names, 0-3 sourcefiles, 0-8 lines with all (mb+cb>0, ci>0) combinations, groups, \
+                session info, counters at every level, comments/PI/CDATA/text) serialised with random attribute order, extra \
+                attributes, quotes, entity/charref escaping, empty-element vs start/end, prefixes, whitespace; each compared \
+                with the independent semantics (oracle) and with the Lean event model; plus a malformed stream (one \
+                tree-level mutation: dropped/duplicated/prefixed attributes, bad numbers, bad entities, duplicates, \
+                misplaced elements, stray end tags, cuts inside a tag, truncation) for the tie, and helper ties (unescape, \
+                parse number, is_jacoco via producer). non-trivial (well-formed) = >=1 class with >=1 method and >=1 \
+                sourcefile with both a branch line and a statement line; malformed cases count as non-trivial; distinct = \
+                distinct XML bytes"
+        .to_string();
+    start_watchdog(rep);
+    // Rng::new(s+1) is Rng::new(s) advanced by one step: continue from a mixed output so that
+    // neighbouring seeds give unrelated streams
+    let mut rng = Rng::new(rep.seed ^ 0xC10).fork();
+    let no_model = std::env::var("VERIF_NO_MODEL").is_ok();
+
+    // ---- the two named findings: start their children now, look at them at the end ------------------
+    let hang_witness: Vec<u8> = b"<report><package name=\"p\"><class name=\"A\">".to_vec();
+    let mut hang_children: Vec<(String, Vec<u8>, Pending)> = vec![];
+    let p = spawn_child("--child-parse", &hang_witness, &rep.workdir, "hang0", 5000);
+    hang_children.push(("minimal".into(), hang_witness.clone(), p));
+    match std::fs::read("/repo/test/jacoco/basic-report.xml") {
+        Ok(fx) => {
+            if let Some(pos) = fx.windows(9).position(|w| w == b"</method>") {
+                let cut = fx[..pos + 9].to_vec();
+                let p = spawn_child("--child-parse", &cut, &rep.workdir, "hang1", 5000);
+                hang_children.push(("basic-report.xml cut after the first </method>".into(), cut, p));
+            }
+        }
+        Err(_) => rep.notes.push("fixture /repo/test/jacoco/basic-report.xml not found".into()),
+    }
+    let alloc_witness: Vec<u8> = b"<report name=\"r\"><package name=\"p\"><sourcefile name=\"A.java\"><line nr=\"1\" mi=\"0\" ci=\"1\" mb=\"0\" cb=\"50000000\"/></sourcefile></package></report>".to_vec();
+    let alloc_child = spawn_child("--child-alloc", &alloc_witness, &rep.workdir, "alloc0", 20000);
+
+    let mut cases: Vec<Case> = vec![];
+    let mut pending: Vec<(usize, Pending)> = vec![];
+    let mut isj_samples: Vec<Vec<u8>> = vec![];
+
+    // ---- truncation between elements inside a package (child process, few) -------------------------
+    let n_trunc = if rep.thorough() { 12 } else { 6 };
+    let mut made = 0;
+    while made < n_trunc {
+        let mut g = G::new(rng.fork());
+        let doc = gen_doc(&mut g, &Cfg::small());
+        let toks = tokens(&lower(&doc));
+        let ks: Vec<usize> = (1..toks.len()).filter(|&k| package_open_at(&toks, k)).collect();
+        if ks.is_empty() {
+            continue;
+        }
+        let k = ks[rng.below(ks.len() as u64) as usize];
+        let mut t: Vec<Tok> = toks[..k].to_vec();
+        if rng.chance(1, 3) {
+            t.push(Tok { bytes: b"\n  ".to_vec(), ev: Ev::Text, open: None });
+        }
+        let xml = xml_of(&t);
+        let events = events_of(&t);
+        self_check(rep, "trunc.inside_package", &xml, &events);
+        let idx = cases.len();
+        pending.push((idx, spawn_child("--child-parse", &xml, &rep.workdir, &format!("trunc{}", made), 1500)));
+        cases.push(Case {
+            stream: "trunc.inside_package".into(),
+            request: request_of(&events),
+            xml,
+            spec: None,
+            imp: String::new(),
+            child: true,
+            timeout_ms: 1500,
+        });
+        made += 1;
+    }
+
+    // ---- well-formed stream: oracle + tie ---------------------------------------------------------------
+    let n = rep.budget(3000, 10);
+    let cfg = Cfg::full();
+    let mut shrunk = 0u32;
+    for i in 0..n {
+        let mut g = G::new(rng.fork());
+        let doc = gen_doc(&mut g, &cfg);
+        let toks = tokens(&lower(&doc));
+        let xml = xml_of(&toks);
+        let events = events_of(&toks);
+        self_check(rep, "wellformed", &xml, &events);
+        let spec = spec_of(&doc);
+        let imp = run_impl(&xml);
+        rep.case(&fhex(&xml), nontrivial(&doc));
+        for f in &g.feat {
+            rep.count(&format!("wf.{}", f));
+        }
+        let results = sem(&doc);
+        let mut paths: Vec<&String> = results.iter().map(|r| &r.0).collect();
+        paths.sort();
+        if paths.windows(2).any(|w| w[0] == w[1]) {
+            rep.count("wf.record.duplicate_path_across_packages");
+        }
+        rep.count(&format!("wf.records.{}", results.len().min(6)));
+        if imp != spec {
+            check_oracle(rep, &doc, &mut shrunk);
+        }
+        if i % 40 == 0 && isj_samples.len() < 40 {
+            isj_samples.push(xml.clone());
+        }
+        cases.push(Case {
+            stream: "wellformed".into(),
+            request: request_of(&events),
+            xml,
+            spec: Some(spec),
+            imp,
+            child: false,
+            timeout_ms: 0,
+        });
+    }
+
+    // ---- malformed stream ---------------------------------------------------------------------------------
+    let m = rep.budget(1500, 10);
+    for _ in 0..m {
+        let mut g = G::new(rng.fork());
+        let doc = gen_doc(&mut g, &Cfg::small());
+        let mut nodes = lower(&doc);
+        let (label, toks): (String, Vec<Tok>) = match g.rng.below(10) {
+            0 => {
+                // cut inside a token
+                let toks = tokens(&nodes);
+                // (a cut inside text while a package is open would be an EOF inside a nested loop:
+                // that is the truncation stream's business)
+                let ks: Vec<usize> = (0..toks.len())
+                    .filter(|&k| toks[k].bytes.len() >= 2 && !(toks[k].ev == Ev::Text && package_open_at(&toks, k)))
+                    .collect();
+                let k = ks[g.rng.below(ks.len() as u64) as usize];
+                let kind = if toks[k].ev == Ev::Text { "cut.inside_text" } else { "cut.inside_markup" };
+                (kind.to_string(), cut_inside(&mut g, &toks, k))
+            }
+            1 => {
+                // truncation between tokens outside any package
+                let toks = tokens(&nodes);
+                let ks: Vec<usize> = (0..=toks.len()).filter(|&k| !package_open_at(&toks, k)).collect();
+                let k = ks[g.rng.below(ks.len() as u64) as usize];
+                ("trunc.outside_package".to_string(), toks[..k].to_vec())
+            }
+            _ => {
+                let mut label = None;
+                for _ in 0..12 {
+                    label = mutate(&mut g, &mut nodes);
+                    if label.is_some() {
+                        break;
+                    }
+                }
+                let label = label.unwrap_or_else(|| {
+                    nodes.push(Node::BadEnd("oops".into()));
+                    "bad_end.in.top".to_string()
+                });
+                (label, tokens(&nodes))
+            }
+        };
+        let xml = xml_of(&toks);
+        let events = events_of(&toks);
+        // input that ends inside an open package without a tokenizer error: the real parser would
+        // never return; such cases are only produced by the cut of a text token
+        let risky = events.last().map(|e| e != "x").unwrap_or(true) && !balanced(&toks) && package_open_at(&toks, toks.len());
+        if risky {
+            rep.count("malformed.skipped_eof_inside_package");
+            continue;
+        }
+        self_check(rep, &label, &xml, &events);
+        rep.case(&fhex(&xml), true);
+        rep.count(&format!("malformed.mutation.{}", label));
+        let imp = run_impl(&xml);
+        cases.push(Case { stream: label, request: request_of(&events), xml, spec: None, imp, child: false, timeout_ms: 0 });
+    }
+
+    // ---- children of the truncation cases -----------------------------------------------------------------
+    for (idx, p) in pending {
+        cases[idx].imp = harvest(p);
+        rep.case(&fhex(&cases[idx].xml), true);
+        rep.count("malformed.mutation.trunc.inside_package");
+        if cases[idx].imp == "diverge" {
+            rep.count(F_HANG);
+        }
+    }
+
+    // ---- the tie ----------------------------------------------------------------------------------------------
+    if !no_model {
+        let reqs: Vec<String> = cases.iter().map(|c| c.request.clone()).collect();
+        let model = run_model_named("gm_c10", &reqs, &rep.workdir, "jacoco");
+        let mut sampled: Vec<&str> = vec![];
+        for (c, mo) in cases.iter().zip(model.iter()) {
+            let kind: String = c.imp.split(' ').take(if c.imp.starts_with("err") { 2 } else { 1 }).collect::<Vec<_>>().join(" ");
+            if c.stream != "wellformed" {
+                rep.count(&format!("malformed.{}", kind));
+            } else {
+                rep.count(&format!("wf.outcome.{}", kind));
+            }
+            let class = if c.stream == "wellformed" {
+                "wf"
+            } else if c.child {
+                "trunc"
+            } else {
+                "mal"
+            };
+            if !sampled.contains(&class) && (class != "mal" || c.imp.starts_with("err")) && c.xml.len() < 1500 {
+                sampled.push(class);
+                rep.sample(json!({"stream": c.stream, "xml": String::from_utf8_lossy(&c.xml), "request": c.request,
+                                  "impl": c.imp, "model": mo}));
+            }
+            if &c.imp != mo {
+                rep.disagreements_checked += 1;
+                if let Some(spec) = &c.spec {
+                    if &c.imp != spec {
+                        // already reported by the oracle (that is the failing input)
+                        continue;
+                    }
+                }
+                rep.fail(
+                    "disagreement",
+                    None,
+                    "parse_jacoco_xml_report differs from the Lean event model Jacoco.parse (C10 theorems no longer transfer)".into(),
+                    case_json(c, mo),
+                );
+            }
+        }
+    }
+
+    // ---- helper ties ---------------------------------------------------------------------------------------------
+    if !no_model {
+        ties::unescape_tie(rep, &mut rng);
+        ties::parsenum_tie(rep, &mut rng);
+        ties::isjacoco_tie(rep, &mut rng, &isj_samples);
+    }
+
+    // ---- named findings ------------------------------------------------------------------------------------------
+    for (name, xml, p) in hang_children {
+        let out = harvest(p);
+        rep.case(&format!("finding.hang {}", fhex(&xml)), true);
+        if out == "diverge" {
+            rep.count(F_HANG);
+            rep.fail(
+                "oracle",
+                Some(F_HANG),
+                format!("witness '{}': the input ends (EOF) while a <package>/<class>/<method>/<sourcefile> element is open; parse_jacoco_xml_report did not return within 5 s (the nested loops have no Event::Eof arm)", name),
+                json!({"op": "finding.hang", "xml_hex": fhex(&xml), "xml": String::from_utf8_lossy(&xml), "timeout_ms": 5000,
+                       "spec": "returns (Ok or Err)", "impl": "no answer within the limit"}),
+            );
+        } else {
+            rep.count(&format!("finding.hang.absent.{}", out.split(' ').next().unwrap_or("")));
+        }
+    }
+    check_alloc(rep, &alloc_witness, harvest(alloc_child));
+}
+
+fn check_alloc(rep: &mut Report, xml: &[u8], out: String) {
+    rep.case(&format!("finding.alloc {}", fhex(xml)), true);
+    let entries: Option<u64> = out.strip_prefix("entries ").and_then(|s| s.parse().ok());
+    let present = match entries {
+        Some(n) => n / (xml.len() as u64) > 1000,
+        // the child died or was killed while building the vector
+        None => out.starts_with("crash") || out == "diverge",
+    };
+    if present {
+        rep.count(F_ALLOC);
+        rep.fail(
+            "oracle",
+            Some(F_ALLOC),
+            format!("a {}-byte report makes parse_jacoco_xml_report build a branch vector of {} entries (cb/mb are taken as allocation sizes: `vec![true; cb]`); child said '{}'",
+                    xml.len(), entries.map(|n| n.to_string()).unwrap_or("?".into()), out),
+            json!({"op": "finding.alloc", "xml_hex": fhex(xml), "xml": String::from_utf8_lossy(xml),
+                   "spec": "output entries / input bytes <= 1000", "impl": out}),
+        );
+    } else {
+        rep.count("finding.alloc.absent");
+    }
+}
+
+pub fn replay(rep: &mut Report, case: &Value) {
+    start_watchdog(rep);
+    let s = |k: &str| case[k].as_str().unwrap_or("").to_string();
+    match s("op").as_str() {
+        "jacoco" => {
+            let xml = unhex(&s("xml_hex"));
+            let child = case["child"].as_bool().unwrap_or(false);
+            let t = case["timeout_ms"].as_u64().filter(|&t| t > 0).unwrap_or(5000);
+            let imp = if child {
+                harvest(spawn_child("--child-parse", &xml, &rep.workdir, "replay", t))
+            } else {
+                run_impl(&xml)
+            };
+            rep.case(&fhex(&xml), true);
+            let request = match case["request"].as_str() {
+                Some(r) => r.to_string(),
+                None => request_of(&qx_events(&xml).unwrap_or_default()),
+            };
+            if let Some(spec) = case["spec"].as_str() {
+                let ok = if spec == "returns" { imp != "diverge" } else { imp == spec };
+                if !ok {
+                    rep.fail("oracle", None, format!("parse_jacoco_xml_report gives '{}', the recorded spec is '{}'", imp, spec), case.clone());
+                    return;
+                }
+            }
+            let model = run_model_named("gm_c10", &[request], &rep.workdir, "replay").remove(0);
+            if imp != model {
+                rep.disagreements_checked += 1;
+                rep.fail("disagreement", None, format!("parse_jacoco_xml_report gives '{}', Jacoco.parse gives '{}'", imp, model), case.clone());
+            }
+        }
+        "events" => {
+            let xml = unhex(&s("xml_hex"));
+            let ev: Vec<String> =
+                case["harness_events"].as_array().map(|a| a.iter().map(|v| v.as_str().unwrap_or("").to_string()).collect()).unwrap_or_default();
+            rep.case(&fhex(&xml), true);
+            if qx_events(&xml).as_deref() != Some(&ev[..]) {
+                rep.fail("disagreement", None, "HARNESS: recorded event list differs from quick-xml's tokenizer".into(), case.clone());
+            }
+        }
+        "unescape" | "parsenum" | "isjacoco" => {
+            let req = s("request");
+            let parts: Vec<&str> = req.split(' ').collect();
+            let imp = match parts[0] {
+                "unescape" => ties::impl_unescape(&String::from_utf8_lossy(&unhex(parts.get(1).unwrap_or(&"")))),
+                "parsenum" => ties::impl_parsenum(parts[1].parse().unwrap_or(32), &String::from_utf8_lossy(&unhex(parts.get(2).unwrap_or(&"")))),
+                _ => ties::impl_isjacoco(&unhex(parts.get(1).unwrap_or(&"")), &rep.workdir),
+            };
+            let model = run_model_named("gm_c10", &[req.clone()], &rep.workdir, "replay").remove(0);
+            rep.case(&req, true);
+            if imp != model {
+                rep.disagreements_checked += 1;
+                rep.fail("disagreement", None, format!("impl '{}' vs model '{}'", imp, model), case.clone());
+            }
+        }
+        "finding.hang" => {
+            let xml = unhex(&s("xml_hex"));
+            let t = case["timeout_ms"].as_u64().unwrap_or(5000);
+            let out = harvest(spawn_child("--child-parse", &xml, &rep.workdir, "replay", t));
+            rep.case(&fhex(&xml), true);
+            if out == "diverge" {
+                rep.fail("oracle", Some(F_HANG), format!("parse_jacoco_xml_report did not return within {} ms", t), case.clone());
+            }
+        }
+        "finding.alloc" => {
+            let xml = unhex(&s("xml_hex"));
+            let out = harvest(spawn_child("--child-alloc", &xml, &rep.workdir, "replay", 20000));
+            check_alloc(rep, &xml, out);
+        }
+        _ => {}
+    }
+}
 
 fn main() {
     let args: Vec<String> = std::env::args().collect();
-    if args.len() >= 3 && args[1] == "--child-parse" {
-        install_panic_hook();
-        let bytes = std::fs::read(&args[2]).unwrap();
-        println!("{}", run_impl(&bytes));
+    if args.len() >= 3 && (args[1] == "--child-parse" || args[1] == "--child-alloc") {
+        child_main(&args);
         return;
     }
     corrlib::run_main("C10", run, replay);
